@@ -125,7 +125,11 @@ impl<'g> Sampler<'g> {
             Expr::Str(s) => out.push_str(s),
             Expr::Insens(s) => {
                 for c in s.chars() {
-                    if rng.chance(1, 2) {
+                    if !c.is_ascii() && rng.chance(1, 3) {
+                        // Unicode case variants must NOT match (folding is documented as ASCII only)
+                        let v: Vec<char> = if rng.chance(1, 2) { c.to_uppercase().collect() } else { c.to_lowercase().collect() };
+                        out.extend(v);
+                    } else if rng.chance(1, 2) {
                         out.push(c.to_ascii_uppercase());
                     } else {
                         out.push(c.to_ascii_lowercase());
